@@ -32,6 +32,8 @@ func TestMain(m *testing.M) {
 			"Sub-check bytes-roundtrip: rapid-generated well-formed binary STL byte strings (80 header bytes: zero, 'solid ...' text or arbitrary; 0..5 records of finite float32 incl. -0, denormals and +-MaxFloat32; " +
 			"normals zero / unit / arbitrary; attribute words 0 or arbitrary) through Read, Write(Read), ReadMesh and WriteMesh(ReadMesh). " +
 			"Non-trivial = mesh with >= 2 triangles and a non-identity index list, or a byte string with >= 1 record and a non-zero attribute word; distinct by case JSON. " +
+			"Sub-check count-sweep (exhaustive along the size axis): EVERY record count 1..3000 (quick) / 1..45 000 (thorough) once, on a recipe-built byte string without normals, judged by the bytes-roundtrip oracle " +
+			"(a block-wise loop that mishandles counts that are exact multiples of its block size cannot hide between sampled counts); every case non-trivial, distinct by count. " +
 			"Sub-checks large (81..131 072 records; every case non-trivial), short-read reader behaviours in every sub-check, and concurrent-*: every concurrent-* case (2-5 bundled cases run at the same time after each passed alone) is non-trivial.",
 		Assumptions: []string{
 			"meshes carry a Position attribute (the attribute-less empty mesh is the only exception): STL has nothing to say about a triangle without positions",
@@ -788,6 +790,28 @@ func (l *lcg) eighth() float64 { // multiples of 1/8 in [-32, 32]
 	return float64(int(uint32(*l)>>16)%513-256) / 8
 }
 
+// largeBytes expands a raw-bytes recipe (Mode 0 or 1) into the binary STL byte string it stands for.
+func largeBytes(c LargeCase) []byte {
+	r := lcg(c.Seed)
+	b := make([]byte, 80, 84+50*c.Tris)
+	copy(b, "large reference file")
+	b = binary.LittleEndian.AppendUint32(b, uint32(c.Tris))
+	for i := 0; i < c.Tris; i++ {
+		var nv [3]float32
+		if c.Mode == 1 {
+			nv[i%3] = float32(1 - 2*(i/3%2))
+		}
+		for _, x := range nv {
+			b = binary.LittleEndian.AppendUint32(b, math.Float32bits(x))
+		}
+		for k := 0; k < 9; k++ {
+			b = binary.LittleEndian.AppendUint32(b, math.Float32bits(float32(r.eighth())))
+		}
+		b = binary.LittleEndian.AppendUint16(b, uint16(i*7))
+	}
+	return b
+}
+
 func runLarge(c LargeCase, o *vh.Obs) *vh.Failure {
 	if c.Tris < 1 || c.Tris > 1<<18 || c.Mode < 0 || c.Mode > 4 || !readerOK(c.Reader) {
 		o.Class("out-of-domain")
@@ -803,26 +827,10 @@ func runLarge(c LargeCase, o *vh.Obs) *vh.Failure {
 		o.Class("large/count-beyond-one-4096-byte-buffer")
 	}
 	o.NonTrivial()
-	r := lcg(c.Seed)
 	if c.Mode <= 1 {
-		b := make([]byte, 80, 84+50*c.Tris)
-		copy(b, "large reference file")
-		b = binary.LittleEndian.AppendUint32(b, uint32(c.Tris))
-		for i := 0; i < c.Tris; i++ {
-			var nv [3]float32
-			if c.Mode == 1 {
-				nv[i%3] = float32(1 - 2*(i/3%2))
-			}
-			for _, x := range nv {
-				b = binary.LittleEndian.AppendUint32(b, math.Float32bits(x))
-			}
-			for k := 0; k < 9; k++ {
-				b = binary.LittleEndian.AppendUint32(b, math.Float32bits(float32(r.eighth())))
-			}
-			b = binary.LittleEndian.AppendUint16(b, uint16(i*7))
-		}
-		return runBytes(BytesCase{Raw: b, Reader: c.Reader}, &vh.Obs{})
+		return runBytes(BytesCase{Raw: largeBytes(c), Reader: c.Reader}, &vh.Obs{})
 	}
+	r := lcg(c.Seed)
 	d := gen.MeshDesc{Topo: int(modeling.TriangleTopology), V3: map[string][][3]gen.F{}}
 	if c.Mode == 2 {
 		d.N = 3 * c.Tris
@@ -856,12 +864,69 @@ func runLarge(c LargeCase, o *vh.Obs) *vh.Failure {
 	return runMesh(MeshCase{M: d, Reader: c.Reader}, &vh.Obs{})
 }
 
+// ---------------------------------------------------------------- sub-check 4: record-count sweep
+
+// A reader or writer that works in blocks of K records can lose or blank its last block exactly
+// when the record count is a multiple of K; K is an implementation detail, so sampled counts do not
+// find it. The sweep runs EVERY record count 1..N once (N = 3000 quick, 45 000 thorough: beyond
+// 2 MiB of records) on a recipe-built byte string (LargeCase, Mode 0).
+func sweepN() int {
+	if vh.Tier == "thorough" {
+		return 45000
+	}
+	return 3000
+}
+
+func sweepCases() []LargeCase {
+	cs := make([]LargeCase, 0, sweepN())
+	for n := 1; n <= sweepN(); n++ {
+		cs = append(cs, LargeCase{Tris: n, Seed: uint32(n)*2654435761 + 12345, Mode: 0})
+	}
+	return cs
+}
+
+var sweepBounds = []int{3000, 10000, 20000, 30000, 45000}
+
+// runSweep judges one count of the sweep with the complete bytes-roundtrip oracle (runBytes: Read
+// returns exactly the recipe's records bit for bit, Write(Read) reproduces the bytes, ReadMesh
+// returns the same triangles in order, WriteMesh(ReadMesh) reproduces the records). Measured cost
+// about 2.4 us per record: 11 CPU-seconds for 1..3000, about 40 CPU-minutes for 1..45 000 (2.5
+// CPU-minutes on each of the 16 thorough shards; 9 minutes of wall time were measured on a machine
+// oversubscribed four times); a Read/Write-only oracle (parseSTL + checkReadWrite) would cost
+// 0.7 us per record but could not see a block-wise loop in ReadMesh or WriteMesh.
+func runSweep(c LargeCase, o *vh.Obs) *vh.Failure {
+	if c.Tris < 1 || c.Tris > 1<<18 || c.Mode < 0 || c.Mode > 1 || !readerOK(c.Reader) {
+		o.Class("out-of-domain")
+		return nil
+	}
+	lo := 1
+	for _, hi := range sweepBounds {
+		if c.Tris <= hi {
+			o.Class(fmt.Sprintf("sweep/records-%d..%d", lo, hi))
+			break
+		}
+		lo = hi + 1
+	}
+	if c.Tris > sweepBounds[len(sweepBounds)-1] {
+		o.Class(fmt.Sprintf("sweep/records-above-%d", sweepBounds[len(sweepBounds)-1]))
+	}
+	o.NonTrivial()
+	f := runBytes(BytesCase{Raw: largeBytes(c), Reader: c.Reader}, &vh.Obs{})
+	if f != nil {
+		f.Msg = fmt.Sprintf("file of %d records (recipe seed %d): %s", c.Tris, c.Seed, f.Msg)
+	}
+	return f
+}
+
 func TestC07(t *testing.T) {
 	vh.Drive(t, vh.Spec[MeshCase]{Name: "mesh-roundtrip", Quick: 500000, Thorough: 15000000, Gen: genMesh, Run: runMesh})
 	vh.Drive(t, vh.Spec[BytesCase]{Name: "bytes-roundtrip", Quick: 700000, Thorough: 21000000, Gen: genBytes, Run: runBytes})
 	vh.Drive(t, vh.Spec[vh.Conc[MeshCase]]{Name: "concurrent-mesh-roundtrip", Quick: 4000, Thorough: 120000, Gen: vh.GenConc(genMesh), Run: vh.RunConc(runMesh), Repeat: 20})
 	vh.Drive(t, vh.Spec[vh.Conc[BytesCase]]{Name: "concurrent-bytes-roundtrip", Quick: 4000, Thorough: 120000, Gen: vh.GenConc(genBytes), Run: vh.RunConc(runBytes), Repeat: 20})
 	vh.Drive(t, vh.Spec[LargeCase]{Name: "large", Quick: 240, Thorough: 8000, Gen: genLarge, Run: runLarge})
+	vh.Enumerate(t, vh.Spec[LargeCase]{Name: "count-sweep", Run: runSweep,
+		Key:    func(c LargeCase) string { return fmt.Sprint(c.Tris, c.Seed, c.Reader, c.Mode) },
+		Sample: func(c LargeCase) any { return c }}, sweepCases())
 }
 
 func FuzzC07Bytes(f *testing.F) {
